@@ -375,14 +375,17 @@ class SetOp(Op):
                 qn = w.m.nodes[q]
                 if qn.kind not in FIELDS or f2 not in FIELDS[qn.kind] or qn.kind == "ir":
                     return False
-                if meth in MUTATING_SET:
+                if meth in MUTATING_SET and (FIELDS[qn.kind][f2] != kinds or meth not in ("update", "ior", "isub", "iand", "ixor") or q == op["parent"]):
                     return False
         if meth in ("add", "update", "ior", "ixor"):
             # everything that may be inserted must be of the right kind
+            owners = {a["wrapper"][0] for a in op.get("args", []) if isinstance(a, dict) and "wrapper" in a}
             for l in self._arg_labels(op):
-                if w.m.nodes[l].kind not in kinds:
+                if l not in owners and w.m.nodes[l].kind not in kinds:
                     return False
             for a in op.get("args", []):
+                if isinstance(a, dict) and "wrapper" in a:
+                    continue
                 items = a if isinstance(a, list) else (a.get("items", []) if isinstance(a, dict) else [a])
                 for x in items:
                     if not isinstance(x, str):
@@ -398,7 +401,10 @@ class SetOp(Op):
             cur = set(w.m.kids(P, op["field"]))
             incoming = []
             for a in op.get("args", []):
-                items = a if isinstance(a, list) else (a.get("items", []) if isinstance(a, dict) else [a])
+                if isinstance(a, dict) and "wrapper" in a:
+                    items = w.m.kids(a["wrapper"][0], a["wrapper"][1])
+                else:
+                    items = a if isinstance(a, list) else (a.get("items", []) if isinstance(a, dict) else [a])
                 for x in items:
                     if x not in cur and x not in incoming:
                         incoming.append(x)
@@ -437,7 +443,9 @@ class SetOp(Op):
         elif meth == "update":
             its = []
             for a in args:
-                if isinstance(a, dict):
+                if isinstance(a, dict) and "wrapper" in a:
+                    its.append(getattr(w.objs[a["wrapper"][0]], a["wrapper"][1]))  # the other owning collection itself
+                elif isinstance(a, dict):
                     its.append(RaisingIter(arg_objs(w, a["items"]), a["raise_after"]))
                 else:
                     style = op.get("style", "list")
@@ -542,26 +550,33 @@ class SetOp(Op):
             elif meth == "update":
                 val = None
                 failed = None
-                partial = set(S)
+                seq = []  # elements in the order a built-in set.update would insert them
                 for a in args:
-                    if isinstance(a, dict):
-                        for i, x in enumerate(a["items"]):
-                            if i == a["raise_after"]:
-                                break
-                            partial.add(x)
+                    if isinstance(a, dict) and "wrapper" in a:
+                        seq.extend(m.kids(a["wrapper"][0], a["wrapper"][1]))
+                        w.counters["probe:bulk_move_from_other_collection"] += 1
+                    elif isinstance(a, dict):
+                        seq.extend(a["items"][: a["raise_after"]])
                         failed = SimFault
                         break
                     else:
-                        partial.update(a)
+                        seq.extend(a)
                 if failed:
-                    # pre-state or built-in post-failure state are both fine
+                    # "a failed operation leaves the collection and its elements consistent":
+                    # any prefix of the insertion sequence may have been applied (none, all up
+                    # to the failure, or everything before the failing argument)
                     exp = Exp("exc", exc_cls=SimFault, owner=("C16",))
-                    exp.alts = [sorted(pre), sorted(partial)]
-                    # the model adopts whichever the implementation shows
                     live = set(w.Ls(getattr(w.objs[P], field)))
-                    S = set(partial) if live == partial else set(pre)
+                    S = set(pre)
+                    chosen = set(pre)
+                    for x in [None] + seq:
+                        if x is not None:
+                            S.add(x)
+                        if S == live:
+                            chosen = set(S)
+                    S = chosen
                 else:
-                    S = partial
+                    S = set(S) | set(seq)
             elif meth == "ior":
                 S |= plain(args[0])
                 val = "self"
@@ -641,7 +656,8 @@ class ListOp(Op):
         return ls
 
     def labels(self, op):
-        return [(op["ir"], ("ir",))] + [(l, ("mod",)) for l in self._arg_labels(op)]
+        extra = [(a["from_ir"], ("ir",)) for a in op.get("args", []) if isinstance(a, dict) and "from_ir" in a]
+        return [(op["ir"], ("ir",))] + [(l, ("mod",)) for l in self._arg_labels(op)] + extra
 
     def touched(self, w, op):
         t = [op["ir"]] + list(w.m.nodes[op["ir"]].a["modules"])
@@ -658,7 +674,13 @@ class ListOp(Op):
             I = op["ir"]
             m = w.m
             cur = list(m.nodes[I].a["modules"])
+            for a_ in op.get("args", []):
+                if isinstance(a_, dict) and "from_ir" in a_ and a_["from_ir"] == I:
+                    return False  # extend(self) is outside the workload
             incoming = [l for l in self._arg_labels(op) if l not in cur]
+            for a_ in op.get("args", []):
+                if isinstance(a_, dict) and "from_ir" in a_:
+                    incoming += [l for l in m.nodes[a_["from_ir"]].a["modules"] if l not in cur]
             inc = []
             for l in incoming:
                 if l not in inc:
@@ -700,6 +722,8 @@ class ListOp(Op):
         args = op.get("args", [])
 
         def objs(a):
+            if isinstance(a, dict) and "from_ir" in a:
+                return w.objs[a["from_ir"]].modules  # the other IR's module list itself
             if isinstance(a, dict):
                 os_ = [w.objs[x] for x in a["items"]]
                 if "raise_after" in a:
@@ -788,6 +812,8 @@ class ListOp(Op):
         owner = ("C16", "C04")
 
         def items(a):
+            if isinstance(a, dict) and "from_ir" in a:
+                return list(m.nodes[a["from_ir"]].a["modules"])
             if isinstance(a, dict):
                 return list(a["items"])
             return a
@@ -803,6 +829,8 @@ class ListOp(Op):
                 val = None
             elif meth in ("extend", "iadd"):
                 a = args[0]
+                if isinstance(a, dict) and "from_ir" in a:
+                    w.counters["probe:bulk_move_from_other_collection"] += 1
                 if isinstance(a, dict) and "raise_after" in a:
                     partial = L + a["items"][: a["raise_after"]]
                     raise SimFault()
